@@ -43,10 +43,11 @@ class Exec:
         return getattr(self.inst[ch[0]], ch[1])
 
     def ch_of(self, ev):
+        src, topic = getattr(ev, "source", None), getattr(ev, "topic", "<unset>")
         for k, i in self.inst.items():
-            if ev.source is i:
-                return k + ev.topic
-        return "?" + str(ev.topic)
+            if src is i:
+                return k + str(topic)
+        return "?" + str(topic)
 
     async def step(self, obs):
         import anyio
@@ -61,7 +62,7 @@ class Exec:
 
             def record(ev):
                 w["got"].append([ev.n, self.ch_of(ev)])
-                if not isinstance(ev.time, float):
+                if not isinstance(getattr(ev, "time", None), float):
                     w["stamps_ok"] = False
 
             async def run_stream():
